@@ -306,6 +306,68 @@ void __asan_on_error(void)
         fflush(stdout);
 }
 
+/* ---------------- instruction coverage of the library's text (VERIF_ASMCOV=<dir>, tools/asmcov.py) ----------------
+ * Measurement only, never a verdict: every instruction of the library objects (addresses from <exe>.insn) gets a one-shot int3; the
+ * SIGTRAP handler puts the original byte back, marks the instruction as executed in a MAP_SHARED file (survives a killed worker) and
+ * re-executes it. Each instruction traps at most once per process. Not for the sanitizer builds and not for the engines that own
+ * SIGTRAP themselves (dispatch tracer, fipssched). */
+#if !defined(VERIF_ASAN) && !defined(VERIF_TSAN)
+#include <sys/mman.h>
+#include <fcntl.h>
+#include <unistd.h>
+static uint64_t *cov_addr;
+static uint8_t *cov_orig, *cov_hits;
+static size_t cov_n;
+static void on_trap_cov(int sig, siginfo_t *si, void *uc_)
+{
+        (void) si;
+        ucontext_t *uc = uc_;
+        uint64_t pc = (uint64_t) uc->uc_mcontext.gregs[REG_RIP] - 1;
+        size_t lo = 0, hi = cov_n;
+        while (lo < hi) { size_t mid = (lo + hi) / 2; if (cov_addr[mid] < pc) lo = mid + 1; else hi = mid; }
+        if (lo < cov_n && cov_addr[lo] == pc) {
+                *(volatile uint8_t *) (uintptr_t) pc = cov_orig[lo];
+                cov_hits[lo] = 1;
+                uc->uc_mcontext.gregs[REG_RIP] = (greg_t) pc;
+                return;
+        }
+        signal(sig, SIG_DFL);   /* not ours: let it happen again with the default action */
+}
+static void asmcov_init(const char *argv0)
+{
+        const char *dir = getenv("VERIF_ASMCOV");
+        if (!dir || !dir[0]) return;
+        char path[1024];
+        snprintf(path, sizeof path, "%s.insn", argv0);
+        int fd = open(path, O_RDONLY);
+        if (fd < 0) return;
+        off_t sz = lseek(fd, 0, SEEK_END);
+        cov_n = (size_t) sz / 8;
+        if (!cov_n) { close(fd); return; }
+        cov_addr = mmap(NULL, (size_t) sz, PROT_READ, MAP_PRIVATE, fd, 0);
+        close(fd);
+        const char *b = strrchr(argv0, '/'); b = b ? b + 1 : argv0;
+        snprintf(path, sizeof path, "%s/%s.%d.hits", dir, b, (int) getpid());
+        fd = open(path, O_RDWR | O_CREAT | O_TRUNC, 0644);
+        if (fd < 0 || ftruncate(fd, (off_t) cov_n) < 0 || cov_addr == MAP_FAILED) { cov_n = 0; return; }
+        cov_hits = mmap(NULL, cov_n, PROT_READ | PROT_WRITE, MAP_SHARED, fd, 0);
+        close(fd);
+        cov_orig = malloc(cov_n);
+        if (cov_hits == MAP_FAILED || !cov_orig) { cov_n = 0; return; }
+        uintptr_t lo = cov_addr[0] & ~4095UL, hi = (cov_addr[cov_n - 1] + 4096) & ~4095UL;
+        if (mprotect((void *) lo, hi - lo, PROT_READ | PROT_WRITE | PROT_EXEC)) { cov_n = 0; return; }
+        struct sigaction sa;
+        memset(&sa, 0, sizeof sa);
+        sa.sa_sigaction = on_trap_cov;
+        sa.sa_flags = SA_SIGINFO | SA_ONSTACK;
+        sigemptyset(&sa.sa_mask);
+        sigaction(SIGTRAP, &sa, NULL);
+        for (size_t i = 0; i < cov_n; i++) { uint8_t *p = (uint8_t *) (uintptr_t) cov_addr[i]; cov_orig[i] = *p; *p = 0xCC; }
+}
+#else
+static void asmcov_init(const char *argv0) { (void) argv0; }
+#endif
+
 void out_init(int argc, char **argv)
 {
         g_argc = argc; g_argv = argv;
@@ -317,6 +379,7 @@ void out_init(int argc, char **argv)
         g_featout = arg_str("--feat-out", NULL);
         setvbuf(stdout, NULL, _IOLBF, 0);
         fault_install();
+        asmcov_init(argv[0]);
         if (arg_int("--static-watch", 0)) { if (!static_watch_init()) out_err("static-storage watch: section list missing"); }
         signal(SIGALRM, on_alarm);
         alarm((unsigned) arg_int("--watchdog", 600));
